@@ -147,6 +147,19 @@ func c14(c *Ctx) {
 		vals, _ := allocStores(al)
 		okReq = termOrNil(vals["ChainId"]) == s+".ourVAA.EmitterChain" && termOrNil(vals["TxHash"]) == s+".txHash"
 	}
+	// the request handed to the queue is a fresh object per entry: the queue's consumer reads it
+	// later, so an object allocated outside the loop and rewritten per entry would make earlier
+	// queued requests name the last entry's transaction
+	if al, ok := post.Call.Args[1].(*ssa.Alloc); ok {
+		fresh := true
+		for _, l := range facts.LoopsOf(fn) {
+			body := l.Body()
+			if body[post.Block()] && !body[al.Block()] {
+				fresh = false
+			}
+		}
+		R.Check("C14.retry-effects", "C14.retry-effects/request-fresh-per-entry", c.rel(p.Pos(al.Pos())), "the request posted for an entry is allocated in that entry's iteration", fresh, "the request object is allocated outside the loop over entries and shared by every request queued in one tick")
+	}
 	R.Check("C14.retry-effects", "C14.retry-effects/request-content", c.rel(p.Pos(post.Pos())), "the request names the originating chain and transaction of the entry (ourVAA.EmitterChain, txHash) and is posted on the outbound request queue", okReq && facts.Term(post.Call.Args[0]) == "p.obsvReqSendC", "request = "+facts.Term(post.Call.Args[1]))
 	effects := []struct {
 		name string
